@@ -1553,7 +1553,8 @@ class Exec:
     # -- modular call: assert pre, havoc frame, assume post --------------------------------
     def use_contract(self, unit, target, recv, args, kw):
         cands = self.ctx.registry.callee(target)
-        cands = [c for c in cands if c.variant == "" or c.native.get("callee_default")] or cands
+        dflt = [c for c in cands if c.native.get("callee_default")]
+        cands = dflt or [c for c in cands if c.variant == ""] or cands
         if len(cands) != 1:
             raise OutsideSubset(f"{len(cands)} contract variants for callee {target}; mark one callee_default")
         cc = cands[0]
@@ -2361,10 +2362,7 @@ _QCACHE = {}
 
 
 def _has_quantifier(e):
-    k = e.get_id()
-    r = _QCACHE.get(k)
-    if r is not None:
-        return r
+    # no caching by get_id(): z3 reuses ids of collected terms
     seen, stack, found = set(), [e], False
     while stack:
         t = stack.pop()
@@ -2375,7 +2373,6 @@ def _has_quantifier(e):
             found = True
             break
         stack.extend(t.children())
-    _QCACHE[k] = found
     return found
 
 
